@@ -24,6 +24,7 @@ POOL = [
     "{}", "{a: 1}", "{a:: 1, b: {c: null}}", "null", "true", "function(x) x", "function(x, y) x",   # 23..29
     "std.range(1, 20000)",                                                                         # 30 large
 ]
+STRUCTURED = ["{a: [{b: 1}, 2]}", "[{a: 1}, 2, [null]]", "{a: [[], {}], b: {c: [{d: {}}, 'x']}}", "{a: [{b: 1}, error 'x']}", "{a: [[{b: 1}], [2]]}"]
 POOL3 = ["-1", "0", "1", "0.5", "1e300", "''", "'a'", "'é'", "[]", "[1, 2, 3]", "{a: 1}", "null"]
 SKIP_FUNCS = {"native", "thisFile"}
 HUGE = {"2147483648", "9007199254740992", "1e300", "std.range(1, 20000)"}
@@ -120,6 +121,16 @@ def run(chk):
         scmds = scmds[:60000]
         for i, c in enumerate(scmds):
             c["id"] = i
+    # structured values (containers of mixed element kinds, an error inside) in every argument position
+    for f, n in sorted(arity.items()):
+        if f in SKIP_FUNCS or f.startswith("__") or n == 0:
+            continue
+        for extra in STRUCTURED:
+            for pos in range(min(n, 3)):
+                for filler in ("null", "'  '", "1", "{}"):
+                    args = [filler] * n
+                    args[pos] = extra
+                    scmds.append({"cmd": "eval", "id": len(scmds), "src": wrap_call(f, args)})
     # operators and calls with extreme operands that the tuple pool does not reach
     for src in ["'aa' * 1e300", "'aa' * -1", "'aa' * 0.5", "std.format('%99999d', [1])", "std.format('%.99999f', [1])",
                 "std.format('%*d', [1e300, 1])", "std.trace(['a" + "é" * 300 + "'], 1)", "std.trace({a: 'ab" + "é" * 300 + "'}, 1)", "std.trace({a: '" + "\U0001F600" * 200 + "'}, 1)",
